@@ -87,13 +87,21 @@ def run_replay(binpath, spec, path, tier, timeout=300):
         if "/harness/" not in loc:
             where = fn
             break
-    return "crash", "crash/" + (re.sub(r"[^A-Za-z0-9_-]+", "_", san.split(":")[-1].strip())[:60] if san else what.replace(" ", "_")) + ("@" + where if where else ""), (san or what) + "\n" + err[-3000:]
+    kind = what.replace(" ", "_")
+    if san:
+        m2 = re.search(r"AddressSanitizer: (\S+)", san)
+        if m2:
+            kind = m2.group(1)
+        else:
+            kind = re.sub(r"0x[0-9a-f]+", "", san.split(":")[-1].strip())
+            kind = re.sub(r"[^A-Za-z0-9_-]+", "_", kind)[:60]
+    return "crash", "crash/" + kind + ("@" + where if where else ""), (san or what) + "\n" + err[-3000:]
 
 
 def ddmin_text(binpath, spec, text, tier, want_kind, want_sig_prefix, budget=120):
     """greedy removal of ' step' lines while the same kind of failure remains"""
     lines = text.split("\n")
-    idx = [i for i, l in enumerate(lines) if l.startswith(" step") and "setparams" not in l]
+    idx = [i for i, l in enumerate(lines) if (l.startswith(" step") or l.startswith("op ")) and "setparams" not in l]
     tmp = os.path.join(VERIF, "build", "run", "ddmin-%d.replay" % os.getpid())
     os.makedirs(os.path.dirname(tmp), exist_ok=True)
 
@@ -112,7 +120,7 @@ def ddmin_text(binpath, spec, text, tier, want_kind, want_sig_prefix, budget=120
             budget -= 1
             if bad(cand):
                 lines = cand
-                idx = [j for j, l in enumerate(lines) if l.startswith(" step") and "setparams" not in l]
+                idx = [j for j, l in enumerate(lines) if (l.startswith(" step") or l.startswith("op ")) and "setparams" not in l]
             else:
                 i += chunk
         if chunk == 1:
